@@ -14,6 +14,7 @@ require (
 	github.com/klauspost/compress v1.18.6 // indirect
 	github.com/valyala/bytebufferpool v1.0.0 // indirect
 	github.com/valyala/fastrand v1.1.0 // indirect
+	golang.org/x/text v0.38.0 // indirect
 )
 
 replace github.com/dgrr/http2 => /repo
